@@ -1,6 +1,6 @@
 import Driver.Ops.C01
 import LentilVerif.Model.Energy
-/-! Model driver ops for C05: intensity on a `propagate_dft` window, the FFT path, `normalize_power`. -/
+/-! Model driver ops for C05: the FFT path and `normalize_power` (`propagate_dft` cases run C02's op `c02.propagate_dft`, i.e. the model over `Gen.dftWindow`). -/
 open Lean Lentil Drv
 namespace Ops.C05
 open Ops.C01
@@ -12,30 +12,12 @@ def cfFldOfJson (j : Json) : R (Fld CF) := do
   let off ← getInts j "off"
   pure { arr := a, o0 := off[0]!, o1 := off[1]! }
 
-/-- field with an optional `"tilt": [sr, sc]` (output samples; default no tilt) -/
-def cfTiltedOfJson (j : Json) : R (Fld CF × Float × Float) := do
-  let f ← cfFldOfJson j
-  match optVal j "tilt" with
-  | none => pure (f, 0.0, 0.0)
-  | some t => do
-      let a ← t.getArr?
-      let v ← a.mapM floatOfJson
-      pure (f, v[0]!, v[1]!)
-
 def realArrToJson (a : Arr Float) : Json :=
   let cells := (idxList a.s0 a.s1).map fun (i, j) => a.get i j
   Json.mkObj [("shape", ints #[a.s0, a.s1]), ("v", Json.arr (cells.map floatToJson).toArray)]
 
 def handle (op : String) (j : Json) : Option (R Json) :=
   match op with
-  | "c05.window" => some do
-      let ts ← (← getArr j "fields").mapM cfTiltedOfJson
-      let al ← getFloats j "alpha"; let w ← getInts j "window"     -- [M, N, U0, V0]
-      let F : Arr CF :=
-        if ts.all (fun t => t.2.1 == 0.0 && t.2.2 == 0.0) then
-          propagateWindow (ts.toList.map (·.1)) al[0]! al[1]! w[0]! w[1]! w[2]! w[3]!
-        else propagateWindowTilted ts.toList al[0]! al[1]! w[0]! w[1]! w[2]! w[3]!
-      pure (okJ [("I", realArrToJson (intensity (R := Float) F))])
   | "c05.fft" => some do
       let fs ← (← getArr j "fields").mapM cfFldOfJson
       let s ← getInts j "fft_shape"
